@@ -48,7 +48,7 @@ func synth(n int, seed uint64, content string) []byte {
 
 func xorPeerValue(peerIdx int, tx [12]byte) []byte {
 	p := peerAddrOf(peerIdx)
-	if peerIdx%len(PeerPool) == 6 {
+	if peerIdx < FirstCrowdPeer && peerIdx%len(PeerPool) == 6 {
 		// IPv4-mapped address sent in its 16-byte (family IPv6) encoding
 		v := make([]byte, 20)
 		v[1] = 2
